@@ -86,6 +86,8 @@ template<class V> struct RT {
     static NOINL void aligned_store(void* p, const void* r, unsigned n) { avel::aligned_store(static_cast<T*>(p), mk<V>(r), n); }
     static NOINL void load_def(const void* p, void* r) { put<V>(r, avel::load<V>(static_cast<const T*>(p))); }
     static NOINL void store_def(void* p, const void* r) { avel::store(static_cast<T*>(p), mk<V>(r)); }
+    static NOINL void aligned_load_def(const void* p, void* r) { put<V>(r, avel::aligned_load<V>(static_cast<const T*>(p))); }
+    static NOINL void aligned_store_def(void* p, const void* r) { avel::aligned_store(static_cast<T*>(p), mk<V>(r)); }
     static NOINL void from_array(const void* a, void* r) { put<V>(r, V{*static_cast<const Arr*>(a)}); }
     static NOINL void to_array(const void* r, void* a) { Arr x = avel::to_array(mk<V>(r)); std::memcpy(a, x.data(), sizeof(T) * V::width); }
 };
@@ -93,6 +95,8 @@ template<class V> struct RTG {
     using T = typename V::scalar; using I = typename Idx<V>::type;
     static NOINL void gather(const void* p, const void* ix, unsigned n, void* r) { put<V>(r, avel::gather<V>(static_cast<const T*>(p), mk<I>(ix), n)); }
     static NOINL void scatter(void* p, const void* r, const void* ix, unsigned n) { avel::scatter(static_cast<T*>(p), mk<V>(r), mk<I>(ix), n); }
+    static NOINL void gather_def(const void* p, const void* ix, void* r) { put<V>(r, avel::gather<V>(static_cast<const T*>(p), mk<I>(ix))); }
+    static NOINL void scatter_def(void* p, const void* r, const void* ix) { avel::scatter(static_cast<T*>(p), mk<V>(r), mk<I>(ix)); }
 };
 
 #define SEQ_N(V) typename Gen<V::width + 1>::type
@@ -101,12 +105,13 @@ template<class V> struct RTG {
 #define ENTRY_G(V, NAME, FL) {COMMON(V, NAME, FL), true, (unsigned)(V::width == 1 ? sizeof(typename V::scalar) : sizeof(typename V::scalar) * V::width), \
     &RT<V>::load, &RT<V>::aligned_load, &RT<V>::store, &RT<V>::aligned_store, &RTG<V>::gather, &RTG<V>::scatter, \
     Tab<V, SEQ_N(V)>::load, Tab<V, SEQ_N(V)>::aligned_load, Tab<V, SEQ_N(V)>::store, Tab<V, SEQ_N(V)>::aligned_store, \
-    TabG<V, SEQ_N(V)>::gather, TabG<V, SEQ_N(V)>::scatter, &RT<V>::load_def, &RT<V>::store_def, &RT<V>::from_array, &RT<V>::to_array, \
+    TabG<V, SEQ_N(V)>::gather, TabG<V, SEQ_N(V)>::scatter, &RT<V>::load_def, &RT<V>::store_def, \
+    &RT<V>::aligned_load_def, &RT<V>::aligned_store_def, &RTG<V>::gather_def, &RTG<V>::scatter_def, &RT<V>::from_array, &RT<V>::to_array, \
     TabL<V, SEQ_L(V)>::extract, TabL<V, SEQ_L(V)>::insert},
 #define ENTRY_N(V, NAME, FL) {COMMON(V, NAME, FL), false, (unsigned)(V::width == 1 ? sizeof(typename V::scalar) : sizeof(typename V::scalar) * V::width), \
     &RT<V>::load, &RT<V>::aligned_load, &RT<V>::store, &RT<V>::aligned_store, nullptr, nullptr, \
     Tab<V, SEQ_N(V)>::load, Tab<V, SEQ_N(V)>::aligned_load, Tab<V, SEQ_N(V)>::store, Tab<V, SEQ_N(V)>::aligned_store, \
-    nullptr, nullptr, &RT<V>::load_def, &RT<V>::store_def, &RT<V>::from_array, &RT<V>::to_array, \
+    nullptr, nullptr, &RT<V>::load_def, &RT<V>::store_def, &RT<V>::aligned_load_def, &RT<V>::aligned_store_def, nullptr, nullptr, &RT<V>::from_array, &RT<V>::to_array, \
     TabL<V, SEQ_L(V)>::extract, TabL<V, SEQ_L(V)>::insert},
 
 #if defined(AVEL_SSE2)
